@@ -117,11 +117,6 @@ Definition spec_lt (a b : spec) : bool :=
 Inductive origin := ONone | OAgent | OUser | OAuthor.
 Definition origin_rank (o : origin) : N :=
   match o with ONone => 0 | OAgent => 1 | OUser => 2 | OAuthor => 3 end.
-Definition origin_same_real (a b : origin) : bool :=
-  match a, b with
-  | OAgent, OAgent | OUser, OUser | OAuthor, OAuthor => true
-  | _, _ => false
-  end.
 
 Record withspec (A : Type) := mkws {
   ws_val : option A; ws_origin : origin; ws_spec : spec; ws_important : bool }.
@@ -129,20 +124,21 @@ Arguments mkws {A}. Arguments ws_val {A}. Arguments ws_origin {A}.
 Arguments ws_spec {A}. Arguments ws_important {A}.
 Definition ws_default {A} : withspec A := mkws None ONone spec0 false.
 
-(* WithSpec::maybe_update, branch for branch (lib.rs:213-249) *)
+(* WithSpec::maybe_update, branch for branch (lib.rs:213-249, after the cascade fix) *)
 Definition maybe_update {A} (w : withspec A) (important : bool) (o : origin) (sp : spec) (v : A)
   : withspec A :=
   let upd := mkws (Some v) o sp important in
   match ws_val w with
   | None => upd
   | Some _ =>
-    if ws_important w && negb important then w else
-    let keep_by_origin :=
-        if origin_same_real (ws_origin w) o then false
-        else (important && (origin_rank (ws_origin w) <? origin_rank o))
-             || (negb important && (origin_rank o <? origin_rank (ws_origin w))) in
-    if keep_by_origin then w else
-    if spec_lt sp (ws_spec w) then w else upd
+    if negb (Bool.eqb (ws_important w) important)
+    then (if ws_important w then w else upd)
+    else if negb (origin_rank (ws_origin w) =? origin_rank o)
+    then (if (if important
+              then origin_rank (ws_origin w) <? origin_rank o
+              else origin_rank o <? origin_rank (ws_origin w))
+          then w else upd)
+    else if spec_lt sp (ws_spec w) then w else upd
   end.
 
 (* ---------- styles ---------- *)
@@ -226,9 +222,10 @@ Fixpoint apply_rules (o : origin) (rules : list ruleset) (p : list anc) (cs : cs
 
 (* the inline declarations of an element (style / color / bgcolor attributes, in
    attribute order), already parsed: supplied by CssParse *)
-Definition computed_style (sd : styledata) (p : list anc) (inline : list style) : res cstyle :=
+Definition computed_style (sd : styledata) (p : list anc) (inline : list styledecl) : res cstyle :=
   do c1 <- apply_rules OAgent (agent_rules sd) p cstyle0;
   do c2 <- apply_rules OUser (user_rules sd) p c1;
   do c3 <- apply_rules OAuthor (author_rules sd) p c2;
-  Ok (fold_left (fun acc st => merge_computed_style acc false OAuthor spec_inline None st)
+  Ok (fold_left (fun acc st => merge_computed_style acc (sd_important st) OAuthor spec_inline None
+                                                     (sd_style st))
                 inline c3).
